@@ -22,10 +22,26 @@
     * `C13_find_matches_fs`, `C13_longest_prefix_fs`: on clean roots (every directory that shares
       a name is a package) and non-stdlib names, "exists" is the file system's first match;
     * `C13_roundtrip`, `C13_roundtrip_fs`: first-match hypothesis ⇒ the derived name locates the file.
+  End to end (model `Walk.*`, RattrModel/ImportWalk.lean: target → star-expansion → followed imports,
+  with `Config().state.current_file` as explicit state that the import visitors READ):
+    * `walk_cur_is_file`: every `compile_root_context` and every `derive_absolute_module_name` call
+      of the walk runs under a current file that is the file whose statements are being registered —
+      however the file was reached (target, followed import, star-expansion at any depth);
+    * `walk_is_one_cached_run`: the calls of the whole walk are one run through one cache;
+    * `walk_resolves_like_python`: hence, in a walk free of module/package name clashes, every relative
+      import inside every reached file resolves to `importlib.util.resolve_name` for THAT file's
+      package, and is unresolvable when Python refuses;
+    * `walk_base_is_own_name`: the round-trip hypothesis of the former, discharged by `C13_roundtrip`;
+    * `walk_symbols_resolve_like_python`: hence every `Import` symbol of every compiled root context
+      (what `-o ir` prints) stems from a statement of the compiled file and names the module Python
+      resolves that statement to.
 -/
 import RattrModel.Locator
 import RattrModel.Spec.ResolveName
 import RattrModel.Generated.C13
+import RattrModel.ImportWalk
+import RattrProofs.Lemmas.C13Walk
+import RattrProofs.Lemmas.C13WalkSyms
 
 namespace Rattr.C13
 open Rattr Rattr.Locator
@@ -46,6 +62,15 @@ theorem tieA_file_names :
     ∧ Generated.C13.clashWinner = "both/__init__.py"
     ∧ Generated.C13.emptyNameFound = false
     ∧ Generated.C13.emptyNameIsStdlib = false := by decide
+
+/-- The three `enter_file` sites and the position of every `compile_root_context` call relative to
+them are the ones `Walk.run` / `Walk.followLoop` / `Walk.expandLoop` mirror; `enter_file` has no
+`finally`; the relative-import visitors take the node only and read `current_file`. -/
+theorem tieA_walk_sites :
+    Generated.C13.enterFileSites = Walk.enterSites
+    ∧ Generated.C13.compileSites = Walk.compileCalls
+    ∧ Generated.C13.enterFileRestoresOnException = false
+    ∧ Generated.C13.relVisitorsReadCurrentFileOnly = true := by decide
 
 /-! ### Generic lemmas on searches over `List.range` -/
 
@@ -708,6 +733,152 @@ theorem C13a_partial (cs : List RelCall) (hcf : ClashFree cs)
     simp only [runOK, List.map_cons, List.zip_cons_cons, List.all_cons, Bool.and_eq_true]
     exact ⟨hall c (by simp), ih (fun d hd => hall d (by simp [hd]))⟩
 
+
+/-! ### (a) end to end: WHICH file a relative import is resolved against -/
+
+/-- the dotted name of the file a logged call belongs to: `dir/stem.py` ↦ `dir.stem`,
+`dir/__init__.py` ↦ `dir` -/
+def ownName (r : Walk.Rec) : Dotted := r.file.dropLast ++ (if r.stem == sInit then [] else [r.stem])
+
+theorem derive_ne_nil (env : Env) (comps : List Str) (b : Dotted)
+    (h : deriveModuleNameFromPath env comps = some b) : b ≠ [] := by
+  unfold deriveModuleNameFromPath iterModuleNamesLeft at h
+  have hm := List.mem_of_find?_eq_some h
+  simp only [List.mem_map, List.mem_range] at hm
+  obtain ⟨k, hk, rfl⟩ := hm
+  intro h0
+  have := congrArg List.length h0
+  simp only [List.length_drop, List.length_nil] at this
+  omega
+
+/-- However a file is reached — as the target, through the BFS over followed imports, through
+star-expansion (nested to any depth) — its root context is compiled, and every relative import in it
+is resolved, while `Config().state.current_file` IS that file: the logged current file has the path
+and stem of the file whose statements are being registered; the `isInit` flag and the base handed to
+`derive_absolute_module_name` are those of that file. For every project, target and fuel. -/
+theorem walk_cur_is_file (P : Walk.Proj) (fuel : Nat) (tgt : Walk.File) :
+    (∀ e, e ∈ (Walk.run P fuel tgt).st.events → e.cur.path = e.file.path ∧ e.cur.stem = e.file.stem)
+    ∧ (∀ r, r ∈ (Walk.run P fuel tgt).st.trace →
+        r.cur.path = r.file ∧ r.cur.stem = r.stem ∧ r.call.isInit = (r.stem == sInit) ∧ 1 ≤ r.call.level
+        ∧ deriveModuleNameFromPath P.env (Walk.curComps P r.cur) = some r.call.base) := by
+  have inv := Walk.run_inv P fuel tgt
+  refine ⟨inv.evs, ?_⟩
+  intro r hr
+  have g := inv.recs r hr
+  refine ⟨g.file, g.stem, ?_, g.level, g.base⟩
+  rw [g.init, Walk.Cur.isInit, g.stem]
+
+/-- The calls of `derive_absolute_module_name` made by the whole walk are ONE run through one cache
+(`runCalls`, the object of `C13_run_noclash` / `C13a_partial`): nothing else touches the cache. -/
+theorem walk_is_one_cached_run (P : Walk.Proj) (fuel : Nat) (tgt : Walk.File) :
+    (Walk.run P fuel tgt).st.trace.map (·.result)
+      = runCalls [] ((Walk.run P fuel tgt).st.trace.map (·.call)) :=
+  (Walk.run_inv P fuel tgt).results
+
+/-- (a) end to end. In a walk that never meets a module and a package of one dotted name, every
+relative import of every reached file whose derived module name is the file's own dotted name
+(`walk_base_is_own_name`) resolves to exactly what `importlib.util.resolve_name` gives for THAT
+file's package; when Python refuses, the produced name has an empty first component and
+`find_module_name_and_spec` rejects it (the "unable to resolve relative import" branch). -/
+theorem walk_resolves_like_python (P : Walk.Proj) (fuel : Nat) (tgt : Walk.File)
+    (hcf : ClashFree ((Walk.run P fuel tgt).st.trace.map (·.call)))
+    (hs : isStdlib P.env [[]] = false)
+    (r : Walk.Rec) (hr : r ∈ (Walk.run P fuel tgt).st.trace) (hown : r.call.base = ownName r) :
+    (∀ x, Spec.pyResolveName (Spec.packageOf (ownName r) (r.stem == sInit)) r.call.level r.call.target = .ok x →
+        r.result = x)
+    ∧ (∀ e, Spec.pyResolveName (Spec.packageOf (ownName r) (r.stem == sInit)) r.call.level r.call.target = .error e →
+        r.result.head? = some [] ∧ findModuleNameAndSpec P.env r.result = none) := by
+  obtain ⟨_, hrec⟩ := walk_cur_is_file P fuel tgt
+  obtain ⟨_, _, hinit, hl, hbase⟩ := hrec r hr
+  have hres := walk_is_one_cached_run P fuel tgt
+  rw [C13_run_noclash _ hcf, List.map_map] at hres
+  have hpure : r.result = r.call.pure := (List.map_inj_left.mp hres) r hr
+  have hne : r.call.base ≠ [] := derive_ne_nil _ _ _ hbase
+  rw [hpure, RelCall.pure, hinit, ← hown]
+  constructor
+  · intro x hx
+    exact C13_relative _ _ _ _ x hl hx
+  · intro e he
+    exact C13_escape_diagnosed P.env _ _ _ _ e hl hne hs he
+
+/-- The round-trip hypothesis of `walk_resolves_like_python`: when the file's own dotted name is a
+suffix of the longest name read off the current file's path, locates a spec, and no longer suffix
+happens to exist as a module (`C13_roundtrip`), the base of the logged call is the own name. -/
+theorem walk_base_is_own_name (P : Walk.Proj) (fuel : Nat) (tgt : Walk.File)
+    (r : Walk.Rec) (hr : r ∈ (Walk.run P fuel tgt).st.trace) (pre : Dotted) (s : ModSpec)
+    (hL : longestName (Walk.curComps P r.cur) = pre ++ ownName r) (hne : ownName r ≠ [])
+    (hfirst : findModuleSpecFast P.env (ownName r) = some s)
+    (hno : ∀ k, k < pre.length → findModuleSpecFast P.env ((pre ++ ownName r).drop k) = none) :
+    r.call.base = ownName r := by
+  obtain ⟨_, hrec⟩ := walk_cur_is_file P fuel tgt
+  obtain ⟨_, _, _, _, hbase⟩ := hrec r hr
+  have := (C13_roundtrip P.env _ pre (ownName r) s hL hne hfirst hno).1
+  rw [hbase] at this
+  exact Option.some.inj this
+
+/-- the dotted name of a project file: `dir/stem.py` ↦ `dir.stem`, `dir/__init__.py` ↦ `dir` -/
+def fileName (f : Walk.File) : Dotted := f.dir ++ (if f.stem == sInit then [] else [f.stem])
+
+/-- (a) end to end, at the level of what rattr prints (`-o ir`): every `Import` symbol of every root
+context the walk compiles — of the target, of a followed import, of a star-imported file at any depth —
+stems from an import statement OF THE COMPILED FILE at the symbol's line, and its qualified name is
+that statement's module (`m`, or `m.<name>`), where for a relative import `m` is what
+`importlib.util.resolve_name` gives for the compiled file's package (an unresolvable name with an
+empty first component when Python refuses). Hypotheses: no module/package name clash in the walk, the
+round trip (`walk_base_is_own_name`) for the logged calls. -/
+theorem walk_symbols_resolve_like_python (P : Walk.Proj) (fuel : Nat) (tgt : Walk.File)
+    (hcf : ClashFree ((Walk.run P fuel tgt).st.trace.map (·.call)))
+    (hs : isStdlib P.env [[]] = false)
+    (hrt : ∀ r, r ∈ (Walk.run P fuel tgt).st.trace → r.call.base = ownName r)
+    (e : Walk.Event) (he : e ∈ (Walk.run P fuel tgt).st.events)
+    (σ : Walk.Sym) (hσ : σ ∈ e.syms) (himp : σ.isImport = true) :
+    (∃ line m a, Walk.Stmt.imp line m a ∈ e.file.stmts ∧ σ.line = line ∧ σ.qual = m)
+    ∨ (∃ line m names, Walk.Stmt.from_ line 0 (some m) names ∈ e.file.stmts ∧ σ.line = line
+        ∧ (σ.qual = m ∨ ∃ n, σ.qual = m ++ [n]))
+    ∨ (∃ line level module names, level ≠ 0 ∧ Walk.Stmt.from_ line level module names ∈ e.file.stmts
+        ∧ σ.line = line
+        ∧ (∀ x, Spec.pyResolveName (Spec.packageOf (fileName e.file) (e.file.stem == sInit)) level module = .ok x →
+            (σ.qual = x ∨ ∃ n, σ.qual = x ++ [n]))
+        ∧ (∀ err, Spec.pyResolveName (Spec.packageOf (fileName e.file) (e.file.stem == sInit)) level module = .error err →
+            σ.qual.head? = some [])) := by
+  rcases Walk.run_evsyms P fuel tgt e he σ hσ with h | h | ⟨line, level, module, names, hmem, hst⟩
+  · rw [himp] at h; cases h
+  · exact Or.inl h
+  · rcases hst with ⟨hl, m, hm, _, hline, hq⟩ | ⟨hl, r, hr, hfile, hstem, hlev, htg, _, hline, hq⟩
+    · subst hl; subst hm
+      exact Or.inr (Or.inl ⟨line, m, names, hmem, hline, hq⟩)
+    · refine Or.inr (Or.inr ⟨line, level, module, names, hl, hmem, hline, ?_⟩)
+      have hown : ownName r = fileName e.file := by
+        unfold ownName fileName
+        rw [hfile, hstem, Walk.File.path, List.dropLast_concat]
+      obtain ⟨hok, herr⟩ := walk_resolves_like_python P fuel tgt hcf hs r hr (hrt r hr)
+      rw [hown, hstem, hlev, htg] at hok herr
+      constructor
+      · intro x hx
+        rw [← hok x hx]
+        exact hq
+      · intro err hx
+        obtain ⟨hh, _⟩ := herr err hx
+        rcases hq with hq | ⟨n, hq⟩
+        · rw [hq]; exact hh
+        · rw [hq]
+          cases hres : r.result with
+          | nil => rw [hres] at hh; cases hh
+          | cons a b => rw [hres] at hh; simpa using hh
+
+private def pkg : Str := "pkg".toList
+private def sub : Str := "sub".toList
+private def leaf : Str := "leaf".toList
+
+/-- Why `walk_cur_is_file` is load-bearing (a test on literals): `from .leaf import *` inside
+`pkg/sub/__init__.py`, had it been resolved while the current file was still the star-importing
+`pkg/__init__.py`, yields `pkg.leaf`; Python: `pkg.sub.leaf`. -/
+theorem walk_cex_wrong_current_file :
+    deriveAbs true [pkg] (some [leaf]) 1 = [pkg, leaf]
+    ∧ deriveAbs true [pkg, sub] (some [leaf]) 1 = [pkg, sub, leaf]
+    ∧ Spec.pyResolveName (Spec.packageOf [pkg, sub] true) 1 (some [leaf]) = .ok [pkg, sub, leaf] := by
+  decide
+
 /-! ### Counterexamples (one per known finding), closed by kernel evaluation -/
 
 private def pa : Str := "pa".toList
@@ -829,5 +1000,46 @@ example : longestName [pa, pb, sInit, sPy] = [] ++ [pa, pb]
 example : longestName [[], "tmp".toList, "t".toList, pa, sInit, sPy] = ["tmp".toList, "t".toList] ++ [pa]
     ∧ (∀ k, k < 2 → findModuleSpecFast envClash ((["tmp".toList, "t".toList] ++ [pa]).drop k) = none)
     ∧ deriveModuleNameFromPath envClash [[], "tmp".toList, "t".toList, pa, sInit, sPy] = some [pa] := by decide
+
+-- the walk (`walk_*`): target.py `from pkg import h2`; pkg/__init__.py `from .sub import *`;
+-- pkg/sub/__init__.py `from .leaf import *`; pkg/sub/leaf.py and (same name one level up) pkg/leaf.py.
+-- The star-imported pkg/sub/__init__.py is compiled twice (star-expansion, then as a followed import),
+-- each time under itself: `.leaf` ↦ pkg.sub.leaf, never pkg.leaf.
+private def h (n : String) : Str := n.toList
+private def demoTarget : Walk.File :=
+  { dir := [], stem := h "target", stmts := [.def_ 65 (h "h4"), .from_ 66 0 (some [pkg]) [(h "h2", none)]] }
+private def demoFiles : List Walk.File :=
+  [ { dir := [pkg], stem := sInit, stmts := [.def_ 1 (h "h0"), .from_ 2 1 (some [sub]) [(Walk.star, none)]] },
+    { dir := [pkg, sub], stem := sInit, stmts := [.def_ 17 (h "h1"), .from_ 18 1 (some [leaf]) [(Walk.star, none)]] },
+    { dir := [pkg, sub], stem := leaf, stmts := [.def_ 33 (h "h2")] },
+    { dir := [pkg], stem := leaf, stmts := [.def_ 49 (h "h3")] },
+    demoTarget ]
+private def demo : Walk.Proj :=
+  { env := { fs := [demoFiles.map Walk.File.path], stdlib := [] }, rootComps := [[], h "w"], files := demoFiles }
+private def demoTrace : List Walk.Rec := (Walk.run demo 30 demoTarget).st.trace
+
+example : demoTrace.map (·.result) = [[pkg, sub], [pkg, sub, leaf], [pkg, sub, leaf]]
+    ∧ demoTrace.map (·.file) = [[pkg, h "__init__.py"], [pkg, sub, h "__init__.py"], [pkg, sub, h "__init__.py"]]
+    ∧ demoTrace.map (·.cur.path) = demoTrace.map (·.file)
+    ∧ demoTrace.all (fun r => r.call.base == ownName r) = true
+    ∧ ((Walk.run demo 30 demoTarget).st.events.map (·.file.path)).length = 7
+    ∧ isStdlib demo.env [[]] = false := by decide
+-- `walk_symbols_resolve_like_python`: the star-expansion's compile of pkg/sub/__init__.py holds the
+-- Import made at line 18 (`from .leaf import *`) with qualified name pkg.sub.leaf
+example : ((Walk.run demo 30 demoTarget).st.events.any fun e =>
+    e.file.stem == sInit && e.file.dir == [pkg, sub] &&
+      e.syms.any (fun σ => σ.isImport && σ.line == 18 && σ.qual == [pkg, sub, leaf])) = true
+    ∧ Spec.pyResolveName (Spec.packageOf (fileName (demoFiles.getD 1 demoTarget)) true) 1 (some [leaf])
+        = .ok [pkg, sub, leaf] := by decide
+-- ClashFree for that trace (the hypothesis of `walk_resolves_like_python`)
+example : ClashFree (demoTrace.map (·.call)) := by
+  have hd : (demoTrace.map (·.call)).all (fun c => (demoTrace.map (·.call)).all
+      (fun d => !(c.key == d.key) || c.isInit == d.isInit)) = true := by decide
+  intro c d hc hdm hk
+  have := List.all_eq_true.mp (List.all_eq_true.mp hd c hc) d hdm
+  simp only [Bool.or_eq_true, Bool.not_eq_true', beq_eq_false_iff_ne, beq_iff_eq] at this
+  rcases this with h1 | h1
+  · exact absurd hk h1
+  · exact h1
 
 end Rattr.C13
